@@ -77,6 +77,27 @@ def run_property(chk, pid):
             recs.append(X.record_for(p, obs, obs == single, sp))
             meta.append((p, "random", sp, None))
             model_fail.append(None)
+    # programs whose own classes occupy the first indices of the type / string / method tables (no primitive type, a package sorting
+    # before java/lang, member names sorting first): index 0 is a valid index.  Analysed alone, as one file and split both ways.
+    for tag in ("a0", "a1"):
+        nsx = "L%s/" % tag
+        pa, pb = nsx + "A;", nsx + "B;"
+        p = dict(ns=nsx, classes=[
+            dict(name=pa, fields=[], methods=[dict(name="aa()V", code=[dict(op="new", cls=pb, name=""), dict(op="cls", cls=pb, name=""), dict(op="inv", cls=pb, name="aa()V"),
+                                                                          dict(op="str", cls="", name="")])]),
+            dict(name=pb, fields=[], methods=[dict(name="aa()V", code=[dict(op="new", cls=pa, name=""), dict(op="cls", cls=pa, name=""), dict(op="cls", cls="[[" + pa, name=""),
+                                                                          dict(op="inv", cls=pa, name="aa()V"), dict(op="str", cls="", name="")])]),
+            # a third class referring to B: in a file holding only B and C, B has index 0 (in the single file A has)
+            dict(name=nsx + "C;", fields=[], methods=[dict(name="aa()V", code=[dict(op="new", cls=pb, name=""), dict(op="cls", cls=pb, name=""), dict(op="inv", cls=pb, name="aa()V")])])])
+        single = X.project(X.analyse(dex, X.build_dexes(p, [[0, 1, 2]])), None)
+        recs.append(X.record_for(p, single, True))
+        meta.append((p, "random", "single", None))
+        model_fail.append(None)
+        for sp in ([[0], [1, 2]], [[1, 2], [0]], [[0, 1], [2]], [[2], [1], [0]]):
+            obs = X.project(X.analyse(dex, X.build_dexes(p, sp)), None)
+            recs.append(X.record_for(p, obs, obs == single, sp))
+            meta.append((p, "random", sp, None))
+            model_fail.append(None)
     res = tlc.validate("Xref_Trace", "Xref_Trace.cfg", recs, shards=16, heap="3g", timeout=3000)
     chk.trace_result(res, "Xref_Trace")
     verdict = {gi: (set(why[0]), set(why[1])) for gi, why in res["rejects"]}
